@@ -103,7 +103,7 @@ def check(ctx):
     if ctx.need("R18-a", us, "`view = memoryview(item)`", len(vw), 1):
         v = u(vw[0][1]["V"])
         sn = ctx.sites(us, f"$B = self._raw_socket.send({v})")
-        loops = [n for n in own_walk(us.node) if isinstance(n, ast.While) and ast.unparse(n.test) == v]
+        loops = [n for n in own_walk(us.node) if isinstance(n, ast.While) and F(ast.unparse(n.test)) == F(v)]       # (`while view:`, `while len(view) > 0:`)
         ctx.ob("R18-a", us, "send loops until the view is empty", len(loops) == 1, detail="" if loops else f"no `while {v}:` loop", by=(f"while {v}",))
         if ctx.need("R18-a", us, "`bytes_sent = self._raw_socket.send(view)`", len(sn), 1):
             b = u(sn[0][1]["B"])
